@@ -63,7 +63,7 @@ def run(chk, tier):
                 'value itself. K7: interior-mutability census of the state reachable from Unimock (atomics, the MutexIsh lock, '
                 'OnceCells of the per-instance chains, type-erased user closures) and no manual Send/Sync; K1: no Arc::get_mut-style '
                 'access to the shared state; closures under the lock contain no user code.')
-    for cfg in configs(tier, thorough=('std', 'mocks', 'nostd-spin')):
+    for cfg in configs(tier, thorough=('std', 'mocks', 'nostd-spin', 'nostd')):
         F = load(chk, cfg)
         callpath = F.reachable_fns([F.fn('private::eval')])
         ops = atomic_ops(F)
